@@ -31,6 +31,14 @@ type envCfg struct {
 	BadIndex    bool        `json:"bad_index"` // add an out-of-range keypair index (must be rejected)
 }
 
+// ctxGen: envelope contexts - the usual short ones, arbitrary strings, and long ones (several hash blocks)
+var ctxGen = rapid.OneOf(
+	rapid.SampledFrom([]string{"", "ctx", "app 2026 envelope v1", "12:x"}),
+	rapid.SampledFrom([]string{"", "ctx", "app 2026 envelope v1", "12:x"}),
+	rapid.StringN(0, 20, 60),
+	rapid.StringN(60, 200, 600),
+)
+
 func genCfg(t *rapid.T) envCfg {
 	c := envCfg{
 		NKeys:       rapid.IntRange(1, 3).Draw(t, "nkeys"),
@@ -38,7 +46,7 @@ func genCfg(t *rapid.T) envCfg {
 		Threshold:   rapid.IntRange(0, 3).Draw(t, "threshold"),
 		TotalShares: rapid.SampledFrom([]int{0, 0, 0, 1, 2, 3, 4, 5}).Draw(t, "total"),
 		Payload:     rapid.OneOf(rapid.SliceOfN(rapid.Byte(), 1, 60), rapid.SliceOfN(rapid.Byte(), 1, 60), rapid.SliceOfN(rapid.Byte(), 61, 6000)).Draw(t, "payload"),
-		Ctx:         rapid.SampledFrom([]string{"", "ctx", "app 2026 envelope v1", "12:x"}).Draw(t, "ctx"),
+		Ctx:         ctxGen.Draw(t, "ctx"),
 		EnvID:       rapid.SampledFrom([]string{"", "", "id-1", "3:a"}).Draw(t, "envid"),
 		BadIndex:    rapid.IntRange(0, 19).Draw(t, "bad") == 0,
 	}
